@@ -59,7 +59,8 @@ def patch_tokens(name, mi):
     if name.startswith("cfi:"):
         toks = ["o"]
         for d in name[4:].split(";"):
-            toks.append("cfi:" + d.strip())
+            d = d.strip()
+            toks.append("cfi:" + d if d.startswith(".cfi") else "o")
         toks.append("o")
         return toks
     return table[name]
